@@ -940,6 +940,67 @@ def rule_p11(F):
     return r
 
 
+BACKWARD_STR = {"ends_with", "rfind", "strip_suffix", "rsplit_once", "rsplit", "rsplitn", "rmatches", "rmatch_indices", "trim_end_matches", "next_back", "last", "rev"}
+
+
+def rule_p12(F, bodies=None):
+    """Escape-aware scanners read left to right.  What a character means (a brace that starts an interpolation, a quote that ends a
+    literal) depends on the escapes consumed before it, and those cannot be recovered from the raw text in front of the cursor:
+    an escaped backslash followed by the letter u and an interpolation ends in backslash-u-brace although that is no unicode escape.
+    So no scanner of the lexer decides by looking at a prefix of the input (`input[..i]`) from the back (ends_with / rfind /
+    strip_suffix / rsplit / rev)."""
+    r = RuleResult("C09.P12", "no lexer scanner decides what a character means by looking backwards over the raw text before the cursor", floor=0)
+    bodies = bodies if bodies is not None else [b for b in F.bodies_in(["src/parser/lexer.rs"]) if b.mir and "::tests::" not in b.path]
+    n = 0
+    for b in bodies:
+        defs = mir.Defs(b)
+
+        def prefix_slice(local, seen=None, depth=0):
+            """does the value derive from `text[..i]`?"""
+            seen = seen if seen is not None else set()
+            if local in seen or depth > 25:
+                return False
+            seen.add(local)
+            for d in defs.defs.get(local, []):
+                if d[2] == "call":
+                    t = d[3]
+                    nm = hir.last(mir.callee_def(t) or "")
+                    if nm in ("index", "get", "get_unchecked", "split_at"):
+                        for a in t.get("args") or []:
+                            if mir.is_place_op(a):
+                                ty = str(b.mir["locals"][a[1][0]].get("ty") or "")
+                                if "RangeTo<" in ty or "RangeToInclusive<" in ty:
+                                    return True
+                    for a in t.get("args") or []:
+                        if mir.is_place_op(a) and prefix_slice(a[1][0], seen, depth + 1):
+                            return True
+                elif d[2] == "assign":
+                    for x in mir.rv_locals(d[3]["rv"]):
+                        if prefix_slice(x, seen, depth + 1):
+                            return True
+            return False
+
+        for bi, t in mir.calls(b):
+            nm = hir.last(mir.callee_def(t) or "")
+            full = mir.callee(t) or mir.callee_def(t) or ""
+            if nm not in BACKWARD_STR or "str" not in full.lower():
+                continue
+            n += 1
+            a0 = (t.get("args") or [None])[0]
+            if a0 is not None and mir.is_place_op(a0) and prefix_slice(a0[1][0]):
+                r.bad(b.path, "looks backwards over input[..i] (%s)" % nm, relfile(b.file), t.get("line") or b.line,
+                      "%s calls %s on a prefix `text[..i]` of the input: the scanner decides what the character at i means from the raw characters in front of it, "
+                      "which an earlier escape may already have consumed (an f-string with an escaped backslash, the letter u and an interpolation)" % (hir.last(b.path), nm))
+    r.inst("backward-looking str calls examined: %d in %d lexer bodies" % (n, len(bodies)))
+    return r
+
+
 def rules(ctx):
     F = ctx["F"]
-    return [rule_p1(F), rule_p2(F), rule_p3(F), rule_p4(F), rule_p5(F), rule_p6(F), rule_p7(F), rule_p8(F), rule_p9(F), rule_p10(F), rule_p11(F)]
+    return [rule_p1(F), rule_p2(F), rule_p3(F), rule_p4(F), rule_p5(F), rule_p6(F), rule_p7(F), rule_p8(F), rule_p9(F), rule_p10(F), rule_p11(F), rule_p12(F)]
+
+
+def canary(C):
+    bodies = [b for b in C.all_bodies() if b.mir]
+    r = rule_p12(C, bodies=bodies)
+    return [{"rule": "C09.P12", "fired": [v.key for v in r.violations], "expect_min": 1}]
